@@ -22,7 +22,7 @@ _SENT = object()
 # ------------------------------------------------------------------------------------------------
 # generation
 # ------------------------------------------------------------------------------------------------
-KEYS = ["a", "b", "c", "d", "k", 1, 2, "x", "long_key_name", "Z"]
+KEYS = ["a", "b", "c", "d", "k", 1, 2, "x", "long_key_name", "Z", "m", "arg", "self"]
 
 
 def _key(rng):
